@@ -103,6 +103,65 @@ def gapOf : Space → Str
 structure SCtx where
   repl : Option (Str → SV → SV)
   plist : Option (List Str)
+  cv : Conv
+
+/-- §9.3 ToNumber of a primitive -/
+def toNumberPrim (cv : Conv) : Prim → FV
+  | .undef => .nan
+  | .null => .fin false 0 0
+  | .bool true => .fin false 1 0
+  | .bool false => .fin false 0 0
+  | .num x => x
+  | .str s => cv.strNum s
+
+/-- §9.8 ToString of a primitive -/
+def toStringPrim (cv : Conv) : Prim → Str
+  | .undef => [117, 110, 100, 101, 102, 105, 110, 101, 100]
+  | .null => [110, 117, 108, 108]
+  | .bool true => [116, 114, 117, 101]
+  | .bool false => [102, 97, 108, 115, 101]
+  | .num x => cv.numStr x
+  | .str s => s
+
+/-- §8.12.8 [[DefaultValue]] with hint Number: valueOf, then toString, else TypeError (`none`);
+    the arguments are the results of the two methods (`none` = not callable) -/
+def defaultValueNumber (valueOf toString : Option Prim) : Option Prim :=
+  match valueOf with
+  | some p => some p
+  | none => toString
+
+/-- … with hint String: toString, then valueOf -/
+def defaultValueString (valueOf toString : Option Prim) : Option Prim :=
+  match toString with
+  | some p => some p
+  | none => valueOf
+
+/-- Str step 4 (and steps 5-6 of JSON.stringify for `space`): a Number object is replaced by
+    ToNumber(value), a String object by ToString(value), a Boolean object by its [[PrimitiveValue]] -/
+def unbox4 (cv : Conv) : SV → SV
+  | .boxNum x => .num x
+  | .boxStr s => .str s
+  | .boxBool b => .bool b
+  | .wrapNum x vo ts =>
+    match defaultValueNumber (vo.call (.num x)) (ts.call (.str (cv.numStr x))) with
+    | some p => .num (toNumberPrim cv p)
+    | none => .raise
+  | .wrapStr s vo ts =>
+    match defaultValueString (vo.call (.str s)) (ts.call (.str s)) with
+    | some p => .str (toStringPrim cv p)
+    | none => .raise
+  | v => v
+
+/-- steps 5-8 input: the `space` argument after unwrapping -/
+def spaceOf (cv : Conv) (arg : Option SV) : Space :=
+  match arg with
+  | none => .absent
+  | some a =>
+    match unbox4 cv a with
+    | .str s => .str s
+    | .num x => .num x
+    | .raise => .typeError
+    | _ => .other
 
 def isFiniteF : FV → Bool
   | .fin .. => true
@@ -118,11 +177,12 @@ def serial (C : SCtx) : Nat → Nat → Str → SV → WR JV
     let v2 := match C.repl with                   -- 3: ReplacerFunction
       | some f => f key v1
       | none => v1
-    match unbox v2 with                           -- 4
+    match unbox4 C.cv v2 with                     -- 4
     | .null => .val .null                         -- 5
     | .bool b => .val (.bool b)                   -- 6, 7
     | .str s => .val (.str s)                     -- 8
     | .num x => .val (if isFiniteF x then .num x else .null)     -- 9
+    | .raise => .throw
     | .back k => if k < depth then .throw else .val (.obj .nil)  -- JO/JA step 1: cyclic
     | .arr l =>
       match serialArr C fuel (depth + 1) 0 l with
@@ -217,14 +277,15 @@ def renderM (gap : Str) : Str → JMs → Str
     44 :: (sep gap (ind ++ gap) ++ quote k ++ colon gap ++ render gap (ind ++ gap) v ++ renderM gap ind t)
 end
 
-def sctxOf (numStr : FV → Str) : Replacer → SCtx
-  | .none => { repl := none, plist := none }
-  | .list items => { repl := none, plist := some (propertyList numStr items []) }
-  | .fn f => { repl := some f, plist := none }
+def sctxOf (cv : Conv) : Replacer → SCtx
+  | .none => { repl := none, plist := none, cv := cv }
+  | .list items => { repl := none, plist := some (propertyList cv.numStr items []), cv := cv }
+  | .fn f => { repl := some f, plist := none, cv := cv }
 
 /-- JSON.stringify(value, replacer, space) -/
-def jsonStringify (numStr : FV → Str) (fuel : Nat) (v : SV) (r : Replacer) (sp : Space) : Out :=
-  match serial (sctxOf numStr r) fuel 0 [] v with
+def jsonStringify (cv : Conv) (fuel : Nat) (v : SV) (r : Replacer) (sp : Space) : Out :=
+  if (match sp with | .typeError => true | _ => false) then .typeError else
+  match serial (sctxOf cv r) fuel 0 [] v with
   | .val t => .text (render (gapOf sp) [] t)
   | .absent => .undef
   | .throw => .typeError
